@@ -477,6 +477,14 @@ def _would_capture(helper, caller):
     return bool(free & local)
 
 
+class _FactoryShell:
+    """what _bind needs to know of a closure factory: its signature, and a body without the nested definition"""
+    def __init__(self, helper):
+        self.args = helper.args
+        self.name = helper.name
+        self.body = [ast.Pass()]
+
+
 def _helper_body(helper):
     body = list(helper.body)
     if body and isinstance(body[0], ast.Expr) and isinstance(body[0].value, ast.Constant) and isinstance(body[0].value.value, str):
@@ -546,6 +554,9 @@ class _Inliner:
         def moved(n):
             if not gone:
                 return False
+            b_ = _helper_body(n)
+            if len(b_) == 2 and isinstance(b_[0], FUNC) and isinstance(b_[1], ast.Return) and isinstance(b_[1].value, ast.Name) and b_[1].value.id == b_[0].name:
+                return False          # a closure factory wrapped around a reviewed closure: taken apart at its call sites (see _hoist)
             fp = fingerprint(n)
             a = set(fp["bag"])
             return len(a) >= 4 and any(abs(g.get("nparams", -9) - fp["nparams"]) <= 1 and len(a & set(g["bag"])) / max(1, len(a | set(g["bag"]))) >= 0.8 for g in gone)
@@ -803,6 +814,13 @@ class _Inliner:
         self.inlined_helpers[id(helper)] = self.inlined_helpers.get(id(helper), 0) + 1
         return out or [ast.copy_location(ast.Pass(), st)]
 
+    def _is_factory(self, call, cls, fn_stack, helpers):
+        h = self.resolve(call, cls, fn_stack, helpers)
+        if h is None or h[1]:
+            return False
+        b = _helper_body(h[0])
+        return len(b) == 2 and isinstance(b[0], FUNC) and isinstance(b[1], ast.Return) and isinstance(b[1].value, ast.Name) and b[1].value.id == b[0].name
+
     # -- a helper call in the middle of an expression: `return helper(a) + b` -> `tmp = helper(a); return tmp + b`
     def _hoist(self, st, cls, fn_stack, helpers):
         """only when the call is evaluated unconditionally and nothing but plain names / constants is evaluated before it"""
@@ -816,12 +834,38 @@ class _Inliner:
             root = st.test
         else:
             return None
-        if root is None or self._call_of(root) is not None and self.resolve(self._call_of(root), cls, fn_stack, helpers) is not None:
+        if root is None or self._call_of(root) is not None and self.resolve(self._call_of(root), cls, fn_stack, helpers) is not None \
+                and not self._is_factory(self._call_of(root), cls, fn_stack, helpers):
             return None
         FOUND, CLEAN, DIRTY = "found", "clean", "dirty"
         outer = self
 
+        def factory_of(call):
+            """the helper is a closure factory: `def make(a, b): def inner(..): ...; return inner` -> its inner function"""
+            h = outer.resolve(call, cls, fn_stack, helpers)
+            if h is None or h[1]:
+                return None
+            helper = h[0]
+            b = _helper_body(helper)
+            if len(b) != 2 or not isinstance(b[0], FUNC) or not (isinstance(b[1], ast.Return) and isinstance(b[1].value, ast.Name) and b[1].value.id == b[0].name):
+                return None
+            inner = b[0]
+            a = helper.args
+            if a.vararg or a.kwarg or a.kwonlyargs or a.posonlyargs or inner.decorator_list or inner.args.vararg or inner.args.kwarg or inner.args.kwonlyargs:
+                return None
+            hp = {x.arg for x in a.args}
+            if any(isinstance(n, ast.Name) and n.id in hp and isinstance(n.ctx, (ast.Store, ast.Del)) for n in ast.walk(inner)) or \
+                    any(isinstance(n, (ast.Nonlocal, ast.Global)) for n in ast.walk(inner)):
+                return None
+            if hp & {x.arg for x in inner.args.args}:
+                return None
+            if _would_capture(helper, fn_stack[-1]):
+                return None
+            return helper, inner
+
         def usable(call):
+            if factory_of(call) is not None:
+                return not any(isinstance(a, ast.Starred) for a in call.args) and not any(k.arg is None for k in call.keywords)
             h = outer.resolve(call, cls, fn_stack, helpers)
             if h is None:
                 return False
@@ -879,9 +923,52 @@ class _Inliner:
             return (DIRTY, None)
         kind, call = find(root)
         if kind != FOUND:
-            return None
+            # a closure factory has no effects of its own (it defines a function over plain arguments): it may be taken out from
+            # anywhere in the statement that is evaluated unconditionally
+            def uncond(e):
+                yield e
+                if isinstance(e, (ast.IfExp, ast.BoolOp, ast.Lambda, ast.ListComp, ast.SetComp, ast.DictComp, ast.GeneratorExp, ast.Await, ast.NamedExpr)):
+                    if isinstance(e, ast.IfExp):
+                        yield from uncond(e.test)
+                    elif isinstance(e, ast.BoolOp):
+                        yield from uncond(e.values[0])
+                    return
+                for c in ast.iter_child_nodes(e):
+                    if isinstance(c, ast.expr):
+                        yield from uncond(c)
+                    elif isinstance(c, ast.keyword):
+                        yield from uncond(c.value)
+            call = next((c for c in uncond(root) if isinstance(c, ast.Call) and factory_of(c) is not None and c is not root and usable(c)), None)
+            if call is None:
+                return None
         helper = self.resolve(call, cls, fn_stack, helpers)[0]
         self._hoist_n = getattr(self, "_hoist_n", 0) + 1
+        fac = factory_of(call)
+        if fac is not None:
+            # the inner function is defined here; what the factory's parameters were bound to becomes default values, evaluated - like
+            # the factory's arguments - when this statement is reached
+            _h, inner = fac
+            try:
+                prefix, mapping = _bind(_FactoryShell(helper), call, False)
+            except _NotInlinable:
+                return None
+            if prefix:
+                return None
+            new_def = copy.deepcopy(inner)
+            new_def.name = f"{inner.name}__{helper.name.lstrip('_')}{self._hoist_n}"
+            used = [p_.arg for p_ in helper.args.args if any(isinstance(n, ast.Name) and n.id == p_.arg for n in ast.walk(inner))]
+            for p_ in used:
+                v = mapping.get(p_)
+                if v is None or isinstance(v, str):
+                    return None
+                new_def.args.args.append(ast.arg(arg=p_, annotation=None))
+                new_def.args.defaults.append(copy.deepcopy(v))
+            ast.copy_location(new_def, st)
+            ast.fix_missing_locations(new_def)
+            _replace_node(st, call, ast.copy_location(ast.Name(id=new_def.name, ctx=ast.Load()), call))
+            self.count += 1
+            self.inlined_helpers[id(helper)] = self.inlined_helpers.get(id(helper), 0) + 1
+            return [new_def, st]
         tmp = f"{helper.name}__r{self._hoist_n}"
         asg = ast.copy_location(ast.Assign(targets=[ast.Name(id=tmp, ctx=ast.Store())], value=call, lineno=st.lineno), st)
         _replace_node(st, call, ast.copy_location(ast.Name(id=tmp, ctx=ast.Load()), call))
